@@ -182,8 +182,15 @@ def check_cases(drv, cases, out):
             if spec_hypotheses(c['v']):
                 count('spec-oracle:compared')
                 if I.model_obs(sp) != impl:
-                    out['violations'].append((c, f'documented result (Lean Spec.format) {sp!r} != implementation {impl!r}',
-                                              {'monitor': 'spec', 'shape': shape_of(c['v'])}, impl))
+                    if single_conversion(c['v']):
+                        # known deviation: the converted text is formatted again (see Props/C08.lean,
+                        # single_conversion_formats_converted_text)
+                        sig = {'monitor': 'single-conversion', 'site': '_format_keep_type.single-expression',
+                               'cause': 'converted-text-formatted-again'}
+                    else:
+                        sig = {'monitor': 'spec', 'shape': shape_of(c['v'])}
+                    out['violations'].append((c, f'documented result (Lean Spec.format) {sp!r} != implementation {impl!r}'[:700],
+                                              sig, impl))
         # python-side monitors
         if isinstance(c['v'], str):
             for clause, detail, sig, obs in I.monitor_string(c['ctx'], c['v']):
@@ -222,6 +229,13 @@ def spec_hypotheses(s):
         if n == '' or n.isdigit() or '{' in sp or '}' in sp:
             return False
     return True
+
+
+def single_conversion(s):
+    """'{name!c}' / '{name!c:spec}' without rf/ff: the one shape where the code is known to deviate"""
+    tups = I.top_fields(s) or []
+    return len(tups) == 1 and tups[0][0] == '' and tups[0][1] is not None and tups[0][3] is not None \
+        and tups[0][2][:2] not in ('rf', 'ff')
 
 
 def shape_of(s):
@@ -295,7 +309,10 @@ def run_chunk(args):
         drv.close()
     # keep the payload small
     out['mismatches'] = out['mismatches'][:20]
-    out['violations'] = out['violations'][:20]
+    other = [v for v in out['violations'] if v[2].get('monitor') != 'single-conversion']
+    known = [v for v in out['violations'] if v[2].get('monitor') == 'single-conversion']
+    out['counts']['finding:single-conversion'] = len(known)
+    out['violations'] = other[:20] + known[:2]
     return out
 
 
@@ -306,7 +323,7 @@ def absorb(res, out):
         res.count(k, v)
     for c, model, impl, note in out['mismatches']:
         res.mismatch(c, model, impl, note)
-    for c, detail, sig, obs in out['violations']:
+    for c, detail, sig, obs in sorted(out['violations'], key=lambda x: x[2].get('monitor') == 'single-conversion'):
         res.violation(c, detail, signature=sig, impl=obs)
     for s in out['samples']:
         if len(res.samples) < 3:
@@ -337,8 +354,8 @@ def run(env, res):
     check_cases(drv, directed, out)
     absorb(res, out)
     # 2. random streams
-    n_g = env.n(3000, 100000)
-    n_m = env.n(3000, 100000)
+    n_g = env.n(3000, 200000)
+    n_m = env.n(3000, 200000)
     jobs = []
     for stream, total in (('grammar', n_g), ('malformed', n_m)):
         left = total
